@@ -1,0 +1,99 @@
+//go:build verif
+
+package utils
+
+// Assumed contracts of Go standard-library functions used by the verified code
+// (contract-based deductive verification, /verif/govc). Compiled only with -tags=verif.
+// Every entry here is TRUSTED: it is an assumption about the standard library, listed in
+// the evidence of every check that uses it. time.Time is modelled by its absolute
+// nanoseconds since the Unix epoch (abs, a mathematical integer) and a location id (loc).
+
+//@ ghost func civilYearStart(y int, l int) int
+//@ ghost func civilYear(a int, l int) int
+//@ ghost func civilYearDay(a int, l int) int
+//@ ghost func utcLoc() int
+//@ ghost func localLoc() int
+
+//@ func time.Unix
+//@ trusted "stdlib time model"
+//@ pure
+//@ ensures abs(result) == sec*1000000000 + nsec
+//@ ensures loc(result) == localLoc()
+
+//@ func (time.Time).Unix
+//@ trusted "stdlib time model"
+//@ pure
+//@ ensures result == div(abs(t), 1000000000)
+
+//@ func (time.Time).UnixNano
+//@ trusted "stdlib time model (result undefined outside the int64 range; callers stay inside)"
+//@ pure
+//@ ensures (0 - 9223372036854775808 <= abs(t) && abs(t) <= 9223372036854775807) ==> result == abs(t)
+
+//@ func (time.Time).Equal
+//@ trusted "stdlib time model"
+//@ pure
+//@ ensures result == (abs(t) == abs(u))
+
+//@ func (time.Time).After
+//@ trusted "stdlib time model"
+//@ pure
+//@ ensures result == (abs(t) > abs(u))
+
+//@ func (time.Time).Before
+//@ trusted "stdlib time model"
+//@ pure
+//@ ensures result == (abs(t) < abs(u))
+
+//@ func (time.Time).IsZero
+//@ trusted "stdlib time model"
+//@ pure
+//@ ensures result == (abs(t) == 0 - 62135596800000000000)
+
+//@ func (time.Time).In
+//@ trusted "stdlib time model"
+//@ pure
+//@ ensures abs(result) == abs(t)
+//@ ensures result.loc == loc
+
+//@ func (time.Time).UTC
+//@ trusted "stdlib time model"
+//@ pure
+//@ ensures abs(result) == abs(t)
+//@ ensures loc(result) == utcLoc()
+
+//@ func (time.Time).Location
+//@ trusted "stdlib time model"
+//@ pure
+//@ ensures result == loc(t)
+
+//@ func (time.Time).Add
+//@ trusted "stdlib time model (no saturation inside the range used: |abs| < 2^62)"
+//@ pure
+//@ ensures abs(result) == abs(t) + d
+//@ ensures loc(result) == loc(t)
+
+//@ func (time.Time).Sub
+//@ trusted "stdlib time model: saturating difference"
+//@ pure
+//@ ensures (0 - 9223372036854775808 <= abs(t) - abs(u) && abs(t) - abs(u) <= 9223372036854775807) ==> result == abs(t) - abs(u)
+
+//@ func (time.Time).Year
+//@ trusted "stdlib time model: civil calendar as uninterpreted functions with axioms"
+//@ pure
+//@ ensures result == civilYear(abs(t), loc(t))
+
+//@ func (time.Time).YearDay
+//@ trusted "stdlib time model"
+//@ pure
+//@ ensures result == civilYearDay(abs(t), loc(t))
+
+//@ func (time.Duration).Nanoseconds
+//@ trusted "stdlib: identity on the int64 count"
+//@ pure
+//@ ensures result == d
+
+//@ func (time.Duration).Seconds
+//@ trusted "stdlib: float64 seconds = sec + nsec/1e9 (rounding ignored outside the float model)"
+//@ pure
+//@ ensures result == real(d) / 1000000000.0
